@@ -162,4 +162,30 @@ theorem loop_refines (items : List Val) (hwf : ParserShaped items) (s : PState) 
         have := (ih hr (done ++ [relabel' l ss] ++ List.map (fun l => relabel' l []) (a :: t).dropLast)).2 _ body hl
         simpa using this
 
+/-! ## the whole transform on a `Switch` node -/
+
+theorem fixSwitch_block (co bco : Option Coord) (cond : Val) (items : List Val)
+    (hwf : ParserShaped items) (s : PState) :
+    fixSwitchCases (.node .Switch co [cond, .node .Compound bco [.list items]]) s
+      = .ok (.node .Switch co [cond, switchBodyV (.node .Compound bco [.list items])]) s := by
+  have h := (loop_refines items hwf s []).1
+  simp [fixSwitchCases, bind_apply, pure_apply, attrOrCrash, valCoord, Val.coord?, h, switchBodyV, mk, regroup]
+
+theorem fixSwitch_empty (co bco : Option Coord) (cond : Val) (s : PState) :
+    fixSwitchCases (.node .Switch co [cond, .node .Compound bco [.none]]) s
+      = .ok (.node .Switch co [cond, switchBodyV (.node .Compound bco [.none])]) s := by
+  simp [fixSwitchCases, bind_apply, pure_apply, attrOrCrash, valCoord, Val.coord?, switchBodyV, mk, fixSwitchLoop]
+
+/-- a switch body that is not a block is left alone (and the specification says the same) -/
+theorem fixSwitch_other (co : Option Coord) (cond body : Val) (hb : body.isCls .Compound = false) (s : PState) :
+    fixSwitchCases (.node .Switch co [cond, body]) s = .ok (.node .Switch co [cond, switchBodyV body]) s := by
+  have hsb : switchBodyV body = body := by
+    unfold switchBodyV
+    split
+    · simp [Val.isCls, Val.cls?] at hb
+    · simp [Val.isCls, Val.cls?] at hb
+    · rfl
+  rw [hsb]
+  simp [fixSwitchCases, bind_apply, pure_apply, attrOrCrash, hb]
+
 end PycModel.SwitchRefine
